@@ -566,6 +566,7 @@ C01.defined: wherever constraints_and_type_name renders a component with the `<P
     // a DEFAULT taken over by a SEQUENCE value that omits the component is linked once: linked twice it is wrapped in its own
     // type (`Severity(Severity::minor)`, E0423 in the bindings) without a warning (= C07.struct, implicit DEFAULTs)
     crate::rules::c07::implicit_defaults(m, ctx, "C01.struct", false);
+    crate::rules::c02::lazy_default_refs(m, ctx, "C01.lazyref");
     // two enumerals with one number are two variants with one discriminant (E0081): the numbering analysis lives with C14
     borrow(ctx, "C14", "C14.num", "C01.discr", &mut |sub| crate::rules::c14::run(m, sub));
     // names that are referred to are the names that are generated (shared with C02.defname)
